@@ -129,8 +129,40 @@ def wrap(ctx, body, parts=None):
     return '<chunked><field name="hs" type="string"/><break/><field name="hg" type="char"/></chunked>' + body
 
 
-def struct_name(ctx, a, b):
-    return "Pr%s%02d%s" % (ctx, a, ("%02d" % b) if b is not None else "xx")
+def struct_name(ctx, a, b, c=None):
+    return "Pr%s%02d%s%s" % (ctx, a, ("%02d" % b) if b is not None else "xx", ("%02d" % c) if c is not None else "")
+
+
+def valid_triple(ctx, a, b, c):
+    """A B C in one body (U: top level, V: inside <chunked>): the pairwise ordering rules, applied in sequence"""
+    base = "T" if ctx == "U" else "K"
+    if not valid(base, a, b):
+        return False
+    fb, fc = TEMPLATES[b][2], TEMPLATES[c][2]
+    if "C" in fc and base != "K":
+        return False
+    if "D" in fb:
+        return False
+    # optional state after B: set by an optional B, cleared by a break, otherwise inherited from A
+    fa = TEMPLATES[a][2]
+    opt = ("O" in fb) or ("O" in fa and "B" not in fb)
+    if opt and not ("O" in fc or "B" in fc or "D" in fc):
+        return False
+    return True
+
+
+def triples(seed, n):
+    rnd = random.Random(seed * 7919 + 13)
+    out = []
+    tries = 0
+    k = len(TEMPLATES)
+    while len(out) < n and tries < n * 50:
+        tries += 1
+        ctx = rnd.choice(("U", "V"))
+        a, b, c = rnd.randrange(k), rnd.randrange(k), rnd.randrange(k)
+        if valid_triple(ctx, a, b, c) and (ctx, a, b, c) not in out:
+            out.append((ctx, a, b, c))
+    return out
 
 
 def all_specs():
@@ -149,14 +181,14 @@ def all_specs():
 def select(tier, seed, sample=None, with_singles=True):
     specs = all_specs()
     if tier == "thorough" and sample is None:
-        return specs
+        return specs + triples(seed, 2500)
     singles = [s for s in specs if s[2] is None]
     pairs = [s for s in specs if s[2] is not None]
     rnd = random.Random(seed)
     n = sample if sample is not None else 160
     if with_singles:
-        return singles + rnd.sample(pairs, min(len(pairs), n))
-    return rnd.sample(specs, min(len(specs), n))
+        return singles + rnd.sample(pairs, min(len(pairs), n)) + triples(seed, max(10, n // 4))
+    return rnd.sample(specs, min(len(specs), n)) + triples(seed, max(5, n // 6))
 
 
 SHARED_ENUMS = '''  <enum name="ItemKind" type="char"><value name="General">0</value><value name="Weapon">1</value><value name="Armor">2</value></enum>
@@ -181,9 +213,15 @@ def make(specs, layout="A"):
         open(os.path.join(out, rel, "protocol.xml"), "w").write("<protocol></protocol>\n")
     core_root = open(os.path.join(CORE, "protocol.xml")).read()
     body = []
-    for ctx, a, b in specs:
+    for spec in specs:
+        ctx, a, b = spec[0], spec[1], spec[2]
         pa = TEMPLATES[a][1].format(p="fa")
         pb = TEMPLATES[b][1].format(p="fb") if b is not None else ""
+        if len(spec) == 4:
+            pc = TEMPLATES[spec[3]][1].format(p="fc")
+            inner = pa + pb + pc
+            body.append('  <struct name="%s">%s</struct>\n' % (struct_name(ctx, a, b, spec[3]), inner if ctx == "U" else "<chunked>" + inner + "</chunked>"))
+            continue
         body.append('  <struct name="%s">%s</struct>\n' % (struct_name(ctx, a, b), wrap(ctx, pa + pb, (pa, pb))))
     if layout == "A":
         shutil.copy(os.path.join(CORE, "protocol.xml"), os.path.join(out, "protocol.xml"))
@@ -203,7 +241,8 @@ def describe(name):
     """human-readable description of a generated struct name"""
     if not name.startswith("Pr") or len(name) < 7:
         return name
-    ctx = {"T": "top level", "K": "in <chunked>", "S": "in <case>", "Q": "in <case> in <chunked>", "A": "after a <chunked>", "Y": "byte, then A in <chunked>, then B", "B": "A <break/> B in <chunked>"}.get(name[2], "?")
+    ctx = {"T": "top level", "K": "in <chunked>", "S": "in <case>", "Q": "in <case> in <chunked>", "A": "after a <chunked>", "Y": "byte, then A in <chunked>, then B", "B": "A <break/> B in <chunked>", "U": "triple at top level", "V": "triple in <chunked>"}.get(name[2], "?")
     a = TEMPLATES[int(name[3:5])][0]
     b = name[5:7]
-    return f"{a}" + (f" then {TEMPLATES[int(b)][0]}" if b.isdigit() else "") + f" ({ctx})"
+    c = name[7:9]
+    return f"{a}" + (f" then {TEMPLATES[int(b)][0]}" if b.isdigit() else "") + (f" then {TEMPLATES[int(c)][0]}" if c.isdigit() else "") + f" ({ctx})"
